@@ -7,15 +7,15 @@ Section Sim.
   Context {I1 S1 I2 S2 : Type}
           (ops1 : input_ops I1 S1) (ops2 : input_ops I2 S2)
           (RI : I1 -> I2 -> Prop) (RS : S1 -> S2 -> Prop)
-          (parser : pstate -> list line -> pres).
+          (parser : list pstate -> list line -> pres).
 
   Hypothesis pull_sim : forall s1 s2 i1 i2, RS s1 s2 -> RI i1 i2 ->
     let '(l1, t1, j1, n1) := op_pull ops1 s1 i1 in
     let '(l2, t2, j2, n2) := op_pull ops2 s2 i2 in
     l1 = l2 /\ n1 = n2 /\ RS t1 t2 /\ RI j1 j2.
-  Hypothesis read_sim : forall raw i1 i2, RI i1 i2 ->
-    let '(c1, f1, j1, n1) := op_read ops1 raw i1 in
-    let '(c2, f2, j2, n2) := op_read ops2 raw i2 in
+  Hypothesis read_sim : forall raw d i1 i2, RI i1 i2 ->
+    let '(c1, f1, j1, n1) := op_read ops1 raw d i1 in
+    let '(c2, f2, j2, n2) := op_read ops2 raw d i2 in
     c1 = c2 /\ f1 = f2 /\ n1 = n2 /\ RI j1 j2.
   Hypothesis slurp_sim : forall i1 i2, RI i1 i2 ->
     let '(c1, j1, n1) := op_slurp ops1 i1 in
@@ -58,9 +58,9 @@ Section Sim.
       split; [|reflexivity]. apply RX_with_status. rewrite H1, H2. apply RX_emit.
       repeat split; assumption.
     - destruct HR as [H1 [H2 [H3 H4]]].
-      pose proof (read_sim raw _ _ H4) as Hr.
-      destruct (op_read ops1 raw (x_in x1)) as [[[c1 f1] j1] n1].
-      destruct (op_read ops2 raw (x_in x2)) as [[[c2 f2] j2] n2].
+      pose proof (read_sim raw d _ _ H4) as Hr.
+      destruct (op_read ops1 raw d (x_in x1)) as [[[c1 f1] j1] n1].
+      destruct (op_read ops2 raw d (x_in x2)) as [[[c2 f2] j2] n2].
       destruct Hr as [-> [-> [-> Hj]]]. rewrite H1, H2, H3.
       split; [|reflexivity]. repeat split; assumption.
     - pose proof HR as [H1 [H2 [H3 H4]]].
@@ -72,6 +72,8 @@ Section Sim.
       pose proof (RX_emit 2 [c2] (x_off x2) _ _ HR) as [E1 [E2 [E3 E4]]].
       repeat split; cbn; assumption.
     - split; [|reflexivity]. apply RX_with_status. now apply RX_emit.
+    - destruct HR as [H1 [H2 [H3 H4]]]. rewrite H1, H2, H3.
+      split; [|reflexivity]. repeat split; assumption.
     - destruct HR as [H1 [H2 [H3 H4]]]. rewrite H1, H2, H3.
       split; [|reflexivity]. repeat split; assumption.
     - destruct HR as [H1 [H2 [H3 H4]]]. rewrite H1, H2, H3.
@@ -110,28 +112,41 @@ Section Sim.
       rewrite H1, Hs. split; [|reflexivity]. repeat split; cbn; assumption.
   Qed.
 
-  Lemma pull_loop_sim (fuel : nat) : forall st fed s1 s2 i1 i2 off eof,
+  Lemma pull_loop_sim (fuel : nat) : forall sts fed s1 s2 i1 i2 off eof,
     RS s1 s2 -> RI i1 i2 ->
-    let '(ph1, (t1, j1, o1, e1)) := pull_loop ops1 parser fuel st fed s1 i1 off eof in
-    let '(ph2, (t2, j2, o2, e2)) := pull_loop ops2 parser fuel st fed s2 i2 off eof in
-    ph1 = ph2 /\ o1 = o2 /\ e1 = e2 /\ RS t1 t2 /\ RI j1 j2.
+    let '(ph1, (g1, t1, j1, o1, e1)) := pull_loop ops1 parser fuel sts fed s1 i1 off eof in
+    let '(ph2, (g2, t2, j2, o2, e2)) := pull_loop ops2 parser fuel sts fed s2 i2 off eof in
+    ph1 = ph2 /\ g1 = g2 /\ o1 = o2 /\ e1 = e2 /\ RS t1 t2 /\ RI j1 j2.
   Proof.
-    induction fuel as [|f IH]; intros st fed s1 s2 i1 i2 off eof HS HI; cbn [pull_loop].
+    induction fuel as [|f IH]; intros sts fed s1 s2 i1 i2 off eof HS HI; cbn [pull_loop].
     - repeat split; assumption.
     - destruct eof.
-      + cbn [orb]. destruct (parser st (fed ++ [[]])); repeat split; assumption.
+      + cbn [orb]. destruct (parser sts (fed ++ [[]])); repeat split; assumption.
       + pose proof (pull_sim _ _ _ _ HS HI) as Hp.
         destruct (op_pull ops1 s1 i1) as [[[l1 t1] j1] n1].
         destruct (op_pull ops2 s2 i2) as [[[l2 t2] j2] n2].
         destruct Hp as [-> [-> [HS' HI']]]. cbn [orb].
         destruct l2 as [|b l2].
-        * destruct (parser st (fed ++ [[]])); repeat split; assumption.
-        * destruct (parser st (fed ++ [b :: l2])); try (repeat split; assumption).
+        * destruct (parser sts (fed ++ [[]])); repeat split; assumption.
+        * destruct (parser sts (fed ++ [b :: l2])); try (repeat split; assumption).
           apply IH; assumption.
   Qed.
 
+  Lemma parse_phase_sim (pf : nat) sts pend fed s1 s2 i1 i2 off eof :
+    RS s1 s2 -> RI i1 i2 ->
+    let '(ph1, (g1, t1, j1, o1, e1)) := parse_phase ops1 parser pf sts pend fed s1 i1 off eof in
+    let '(ph2, (g2, t2, j2, o2, e2)) := parse_phase ops2 parser pf sts pend fed s2 i2 off eof in
+    ph1 = ph2 /\ g1 = g2 /\ o1 = o2 /\ e1 = e2 /\ RS t1 t2 /\ RI j1 j2.
+  Proof.
+    intros HS HI. unfold parse_phase. destruct pend.
+    - destruct (parser sts fed); try (repeat split; assumption).
+      apply pull_loop_sim; assumption.
+    - apply pull_loop_sim; assumption.
+  Qed.
+
   Definition RM (m1 : mstate (I:=I1) (SRC:=S1)) (m2 : mstate (I:=I2) (SRC:=S2)) : Prop :=
-    RX (m_x m1) (m_x m2) /\ RS (m_src m1) (m_src m2) /\ m_eof m1 = m_eof m2.
+    RX (m_x m1) (m_x m2) /\ RS (m_src m1) (m_src m2) /\ m_eof m1 = m_eof m2 /\
+    m_pend m1 = m_pend m2 /\ m_fed m1 = m_fed m2 /\ m_hist m1 = m_hist m2.
 
   Definition Rres (r1 : mstate (I:=I1) (SRC:=S1) + final)
                   (r2 : mstate (I:=I2) (SRC:=S2) + final) : Prop :=
@@ -147,14 +162,15 @@ Section Sim.
   Lemma iter_sim (pf : nat) (m1 : mstate) (m2 : mstate) :
     RM m1 m2 -> Rres (iter ops1 parser pf m1) (iter ops2 parser pf m2).
   Proof.
-    intros [HX [HS He]]. unfold iter. pose proof HX as [H1 [H2 [H3 H4]]].
-    pose proof (pull_loop_sim pf (s_ps (x_sh (m_x m2))) [] _ _ _ _ (x_off (m_x m2)) (m_eof m2) HS H4) as Hp.
-    rewrite H1, H2, H3, He.
-    destruct (pull_loop ops1 parser pf (s_ps (x_sh (m_x m2))) [] (m_src m1) (x_in (m_x m1))
-                (x_off (m_x m2)) (m_eof m2)) as [ph1 [[[t1 j1] o1] e1]].
-    destruct (pull_loop ops2 parser pf (s_ps (x_sh (m_x m2))) [] (m_src m2) (x_in (m_x m2))
-                (x_off (m_x m2)) (m_eof m2)) as [ph2 [[[t2 j2] o2] e2]].
-    destruct Hp as [-> [-> [-> [HS' HI']]]].
+    intros [HX [HS [He [Hpe [Hfe Hhi]]]]]. unfold iter. pose proof HX as [H1 [H2 [H3 H4]]].
+    rewrite H1, H2, H3, He, Hpe, Hfe, Hhi.
+    set (sts := (if m_pend m2 then m_hist m2 else []) ++ [s_ps (x_sh (m_x m2))]).
+    pose proof (parse_phase_sim pf sts (m_pend m2) (m_fed m2) _ _ _ _ (x_off (m_x m2)) (m_eof m2) HS H4) as Hp.
+    destruct (parse_phase ops1 parser pf sts (m_pend m2) (m_fed m2) (m_src m1) (x_in (m_x m1))
+                (x_off (m_x m2)) (m_eof m2)) as [ph1 [[[[g1 t1] j1] o1] e1]].
+    destruct (parse_phase ops2 parser pf sts (m_pend m2) (m_fed m2) (m_src m2) (x_in (m_x m2))
+                (x_off (m_x m2)) (m_eof m2)) as [ph2 [[[[g2 t2] j2] o2] e2]].
+    destruct Hp as [-> [-> [-> [-> [HS' HI']]]]].
     assert (HX' : RX (mkX (x_sh (m_x m2)) j1 o2 (x_evs (m_x m2)))
                      (mkX (x_sh (m_x m2)) j2 o2 (x_evs (m_x m2)))) by now apply RX_intro.
     destruct ph2 as [r| |]; try (cbn; now apply finish_sim).
@@ -189,7 +205,7 @@ Section Sim.
   Lemma init_sim s1 s2 i1 i2 : RS s1 s2 -> RI i1 i2 -> RM (init s1 i1) (init s2 i2).
   Proof. intros HS HI. unfold init. repeat split; assumption. Qed.
 
-  Lemma run_sim fuel s1 s2 i1 i2 : RS s1 s2 -> RI i1 i2 ->
-    run ops1 parser fuel s1 i1 = run ops2 parser fuel s2 i2.
+  Lemma run_sim fuel pf s1 s2 i1 i2 : RS s1 s2 -> RI i1 i2 ->
+    run ops1 parser fuel pf s1 i1 = run ops2 parser fuel pf s2 i2.
   Proof. intros HS HI. unfold run. apply loop_sim. now apply init_sim. Qed.
 End Sim.
